@@ -25,6 +25,10 @@ var classPrefix = "c01"
 // sharedSync is set per case by RunCase when the medium runs with SharedPositionSync.
 var sharedSync bool
 
+// per case: alive subscriptions found at the stream top / behind it after the check horizon
+var aliveAtTop, aliveLagging int
+var laggingWitness string
+
 // pubRec is one Node.Publish call as seen at the boundary.
 type pubRec struct {
 	ID      string
@@ -697,6 +701,7 @@ func RunCase(c *kit.Case, opt Options) {
 		Problems []string
 	}
 	var views []incView
+	aliveAtTop, aliveLagging, laggingWitness = 0, 0, ""
 	for _, cr := range runs {
 		for _, conn := range cr.conns {
 			closed, disc, _ := conn.T.Closed()
@@ -717,6 +722,13 @@ func RunCase(c *kit.Case, opt Options) {
 				sig += fmt.Sprintf("|%s:r%v:n%d:%s%d", in.Kind, in.Recovered, bucket(len(in.Delivered)), in.EndKind, in.EndCode)
 			}
 		}
+	}
+	if sharedSync && aliveLagging > 0 && aliveAtTop == 0 && !c.Violated() {
+		// Every subscription that is still alive is behind the stream top: whichever of them takes
+		// the shared check slot holds an invalid position, so the loss must have been detected (and
+		// all of them ended) within the horizon. A subscriber that lags alone is a different matter
+		// (counted above).
+		c.Violation(classPrefix+"-position-loss-never-detected-under-shared-position-sync", fmt.Sprintf("SharedPositionSync: all %d subscriptions still alive after the check horizon are behind the stream top and none was ended; e.g. %s", aliveLagging, laggingWitness), nil)
 	}
 	// window coverage: publishes whose call/return interval contains a subscription start
 	for _, v := range views {
@@ -836,6 +848,8 @@ func checkIncarnation(c *kit.Case, s *scenario, in *incarnation, byPos map[strin
 					// own tick happens to take that slot. The statement does not bound
 					// this, so it is counted, not flagged.
 					c.Count("lagging_subscriber_not_found_by_shared_position_sync", 1)
+					aliveLagging++
+					laggingWitness = fmt.Sprintf("conn %d (%s) is still subscribed after the check horizon but never received offset %d (%s); last received %d, stream top %d", in.Conn, in.Kind, o, rec.ID, last, top.Offset)
 					return
 				}
 				cls := classPrefix+"-alive-subscription-left-behind"
@@ -847,6 +861,7 @@ func checkIncarnation(c *kit.Case, s *scenario, in *incarnation, byPos map[strin
 			}
 		}
 		c.Count("alive_at_top", 1)
+		aliveAtTop++
 	}
 }
 
